@@ -312,6 +312,27 @@ func VF_C03_Constructors(n, form int) {
 		vf.Assert("from-map-same-associations", ok)
 	case 3:
 		checkCatalog("make-empty", kit, cls.Make(), &omodel[int]{})
+	case 4, 5:
+		// a catalog built from another catalog (as a sequence, or from its array view) holds its own associations:
+		// replacing a value in either leaves the other describing what its own history says
+		src := cls.MakeFromArray(assocs)
+		var cp col.CatalogLike[int, int]
+		if form == 4 {
+			cp = cls.MakeFromSequence(src)
+		} else {
+			cp = cls.MakeFromArray(src.AsArray())
+		}
+		checkCatalog("copy", kit, cp, m)
+		if len(m.ks) > 0 {
+			x := vf.Int("x")
+			last := len(m.ks) - 1
+			cp.SetValue(m.ks[0], x)
+			checkCatalog("source-after-set-in-copy", kit, src, m)
+			m2 := &omodel[int]{ks: append([]int{}, m.ks...), vs: append([]int{}, m.vs...)}
+			m2.vs[0] = x
+			src.SetValue(m.ks[last], x+1)
+			checkCatalog("copy-after-set-in-source", kit, cp, m2)
+		}
 	}
 	vf.BudgetReset()
 	vf.Reach("end")
